@@ -14,7 +14,7 @@ import (
 )
 
 func main() {
-	if len(os.Args) < 3 {
+	if len(os.Args) < 2 {
 		fmt.Println("usage: vmc check <property> <tier> | vmc replay <file>")
 		os.Exit(2)
 	}
@@ -33,6 +33,12 @@ func main() {
 		ctx := mc.NewCtx(prop, tier)
 		chk(ctx)
 		os.Exit(mc.Finish(ctx))
+	default:
+		if f, ok := mc.ExtraCommands[os.Args[1]]; ok {
+			os.Exit(f(os.Args[2:]))
+		}
+		fmt.Println("unknown command", os.Args[1])
+		os.Exit(2)
 	case "replay":
 		b, err := os.ReadFile(os.Args[2])
 		if err != nil {
